@@ -363,6 +363,9 @@ def c02(facts, tier):
     r_slotmod.run(facts, rep, lambda p: facts.items.get(p, {}).get("file") == "src/evaluator.rs", floor_sites=6, floor_pairs=10)
     # add/sub back ends: every contribution of the second operand is selected by the subtract flag
     r_modeflag.run(facts, rep, lambda p: facts.items.get(p, {}).get("file") == "src/evaluator.rs", floor=2)
+    # BGV correction-factor balancing (and every other place a signed quantity is reduced): the sign is not dropped
+    n = r_contra.run_absmod(facts, rep, {"src/evaluator.rs", "src/util/number_theory.rs", "src/util/scaling_variant.rs"})
+    rep.floor("R-CONTRA(absmod)", "reduced magnitudes of signed locals", n, 2)
     # multiply_many: the pairwise product tree stays in bounds for odd operand counts and keeps its products
     n = r_contra.run_pairwise(facts, rep, {"src/evaluator.rs"})
     rep.floor("R-CONTRA(pairs)", "pairwise-consuming loops", n, 2)
@@ -499,6 +502,8 @@ def c12(facts, tier):
              "from the operand and total_coeff_modulus_bit_count")
     r_guard.check_return_facts(facts, rep, eng, rows, "R-GUARD(encode)")
     rep.floor("R-GUARD(encode)", "encode refusal rows", len(rows), 25)
+    n = r_contra.run_absmod(facts, rep, {"src/ckks_encoder.rs"})
+    rep.floor("R-CONTRA(absmod)", "reduced magnitudes of signed locals", n, 1)
     r_encadmit.run(facts, rep, floor=4)
     return rep
 
@@ -614,7 +619,8 @@ def c11(facts, tier):
     r_pair.run_c11(facts, rep)
     files = None if tier == "thorough" else {"src/util/galois.rs", "src/batch_encoder.rs", "src/util/ntt.rs"}
     n = r_contra.run_index(facts, rep, files)
-    rep.floor("R-CONTRA(index)", "length-guarded index uses", n, 1)
+    rep.floor("R-CONTRA(index)", "length-guarded index uses", n, 0)
+    r_pair.run_galois_total(facts, rep)
     return rep
 
 
@@ -638,7 +644,7 @@ def c04(facts, tier):
     repstate(facts, rep, ents, 90)
     files = None if tier == "thorough" else {"src/util/galois.rs", "src/evaluator.rs", "src/key.rs"}
     n = r_contra.run_index(facts, rep, files)
-    rep.floor("R-CONTRA(index)", "length-guarded index uses", n, 1)
+    rep.floor("R-CONTRA(index)", "length-guarded index uses", n, 0)
     # the sign of a rotation step must survive its decomposition (naf): no sign test on an absolute value
     n = r_contra.run_abs_sign(facts, rep, None if tier == "thorough" else {"src/util/number_theory.rs", "src/util/galois.rs",
                                                                             "src/evaluator.rs"})
